@@ -27,6 +27,8 @@ fn acts() -> Vec<MAct> {
         vec!["DEL", "k"], vec!["RENAME", "k", "j"], vec!["EXPIRE", "k", "100"], vec!["INCR", "n"], vec!["FLUSHDB"], vec!["FLUSHALL"], vec!["MULTI"], vec!["EXEC"],
         vec!["EVAL", FORWARD_SCRIPT, "0", "SET", "k", "ev"], vec!["EVALSHA", "@SHA", "0", "SET", "k", "sha"], vec!["EVAL", FORWARD_SCRIPT, "0", "FLUSHDB"], vec!["EVALSHA", "@SHA", "0", "DEL", "k"],
         vec!["EVAL", FORWARD_SCRIPT, "0", "RENAME", "k", "j"], vec!["EVAL", FORWARD_SCRIPT, "0", "LPUSH", "k", "e"],
+        // FLUSHALL has its own implementation on the script path (a seeded change left database 15 out of it there)
+        vec!["EVAL", FORWARD_SCRIPT, "0", "FLUSHALL"], vec!["EVALSHA", "@SHA", "0", "FLUSHALL"], vec!["EVALSHA", "@SHA", "0", "FLUSHDB"],
     ] {
         a.push(mcmd(0, &c));
     }
@@ -96,6 +98,127 @@ fn read_paths(h: &mut Harness) -> Result<Vec<(String, Value)>, String> {
     Ok(devs)
 }
 
+
+/// write paths: every one of the 16 databases holds the same key names; one write command is executed through one
+/// path on a connection that selected database d; afterwards every database is read back. All databases other than
+/// d must be exactly as seeded (FLUSHALL: all 16 empty), d itself must have changed (FLUSH*: be empty).
+const WRITE_CMDS: [&[&str]; 9] = [&["SET", "k", "new"], &["DEL", "k"], &["LPUSH", "l", "x"], &["INCR", "n"], &["RENAME", "k", "j"], &["EXPIRE", "k", "100"], &["APPEND", "k", "x"], &["FLUSHDB"], &["FLUSHALL"]];
+const WRITE_PATHS: [&str; 6] = ["direct", "MULTI/EXEC", "queued SELECT", "EVAL", "EVALSHA", "EVAL pcall"];
+const PCALL_SCRIPT: &str = "return redis.pcall(unpack(ARGV))";
+
+fn db_snapshot(h: &mut Harness, db: usize) -> Result<String, String> {
+    h.aux_call(&["SELECT", &db.to_string()])?;
+    let mut out = String::new();
+    for c in [vec!["DBSIZE"], vec!["GET", "k"], vec!["LRANGE", "l", "0", "-1"], vec!["GET", "n"], vec!["EXISTS", "j"], vec!["TTL", "k"]] {
+        out.push_str(&resp::show(&h.aux_call(&c)?));
+        out.push('|');
+    }
+    Ok(out)
+}
+
+fn write_paths(h: &mut Harness, part: usize, parts: usize) -> Result<(Vec<(String, Value)>, u64), String> {
+    let mut devs = Vec::new();
+    let mut cases = 0u64;
+    h.ensure()?;
+    let sha = match h.aux_call(&["SCRIPT", "LOAD", FORWARD_SCRIPT])? {
+        R::Bulk(b) => String::from_utf8_lossy(&b).to_string(),
+        other => return Err(format!("SCRIPT LOAD -> {}", resp::show(&other))),
+    };
+    let mut idx = 0usize;
+    for d in 0..16usize {
+        for (ci, cmd) in WRITE_CMDS.iter().enumerate() {
+            for (pi, path) in WRITE_PATHS.iter().enumerate() {
+                idx += 1;
+                if idx % parts != part {
+                    continue;
+                }
+                cases += 1;
+                h.aux_call(&["FLUSHALL"])?;
+                for i in 0..16usize {
+                    h.aux_call(&["SELECT", &i.to_string()])?;
+                    h.aux_call(&["SET", "k", &format!("v{}", i)])?;
+                    h.aux_call(&["RPUSH", "l", &format!("e{}", i)])?;
+                    h.aux_call(&["SET", "n", &format!("{}", 100 + i)])?;
+                }
+                let mut before = Vec::new();
+                for i in 0..16usize {
+                    before.push(db_snapshot(h, i)?);
+                }
+                h.aux_call(&["SELECT", "0"])?;
+                let srv = h.srv.as_ref().unwrap();
+                let mut c = srv.connect().map_err(|e| format!("{:?}", e))?;
+                let ds = d.to_string();
+                let call = |c: &mut crate::srv::Client, a: &[&str]| srv.call(c, a).map_err(|e| format!("{:?}", e));
+                let reply = match pi {
+                    0 => {
+                        call(&mut c, &["SELECT", &ds])?;
+                        call(&mut c, cmd)?
+                    }
+                    1 => {
+                        call(&mut c, &["SELECT", &ds])?;
+                        call(&mut c, &["MULTI"])?;
+                        call(&mut c, cmd)?;
+                        call(&mut c, &["EXEC"])?
+                    }
+                    2 => {
+                        // the connection sits in another database; the SELECT is part of the transaction
+                        call(&mut c, &["SELECT", &((d + 7) % 16).to_string()])?;
+                        call(&mut c, &["MULTI"])?;
+                        call(&mut c, &["SELECT", &ds])?;
+                        call(&mut c, cmd)?;
+                        call(&mut c, &["EXEC"])?
+                    }
+                    3 | 5 => {
+                        call(&mut c, &["SELECT", &ds])?;
+                        let mut a: Vec<&str> = vec!["EVAL", if pi == 3 { FORWARD_SCRIPT } else { PCALL_SCRIPT }, "0"];
+                        a.extend_from_slice(cmd);
+                        call(&mut c, &a)?
+                    }
+                    _ => {
+                        call(&mut c, &["SELECT", &ds])?;
+                        let mut a: Vec<&str> = vec!["EVALSHA", &sha, "0"];
+                        a.extend_from_slice(cmd);
+                        call(&mut c, &a)?
+                    }
+                };
+                c.discard();
+                let _ = h.srv.as_ref().unwrap().steps(2);
+                let mut after = Vec::new();
+                for i in 0..16usize {
+                    after.push(db_snapshot(h, i)?);
+                }
+                let flushall = cmd[0] == "FLUSHALL";
+                let empty = ":0|nil|[]|nil|:0|:-2|";
+                let mut problems: Vec<String> = Vec::new();
+                for i in 0..16usize {
+                    if flushall {
+                        if after[i] != empty {
+                            problems.push(format!("database {} not emptied by FLUSHALL", if i == d { "selected".to_string() } else if i == 15 { "15".to_string() } else if i == 0 { "0".to_string() } else { "other".to_string() }));
+                        }
+                    } else if i != d {
+                        if after[i] != before[i] {
+                            problems.push("another database changed".to_string());
+                        }
+                    } else if cmd[0] == "FLUSHDB" {
+                        if after[i] != empty {
+                            problems.push("selected database not emptied by FLUSHDB".to_string());
+                        }
+                    } else if after[i] == before[i] {
+                        problems.push("no effect in the selected database".to_string());
+                    }
+                }
+                problems.sort();
+                problems.dedup();
+                for pr in problems {
+                    devs.push((format!("C18|WRITE-PATH|{}|{}|{}|db={}", path, cmd.join(" "), pr, if d == 0 { "0" } else if d == 15 { "15" } else { "other" }),
+                        json!({"path": path, "command": cmd, "selected_db": d, "reply": resp::show(&reply), "before": before, "after": after, "case": [d, ci, pi]})));
+                }
+            }
+        }
+    }
+    Ok((devs, cases))
+}
+
 /// a BLPOP registered in db 1 must be served by a push in db 1 and not by a push to the same key in db 0
 fn blocking_scenario(h: &mut Harness) -> Result<Vec<(String, Value)>, String> {
     let mut devs = Vec::new();
@@ -146,6 +269,14 @@ fn blocking_scenario(h: &mut Harness) -> Result<Vec<(String, Value)>, String> {
 }
 
 fn extra_worker(_tier: &str, task: &Value, _io: &mut WorkerIo) -> Option<Value> {
+    if let Some(w) = task.get("write_paths") {
+        let mut h = Harness::new(SrvOpts::default());
+        let (part, parts) = (w["part"].as_u64().unwrap_or(0) as usize, w["parts"].as_u64().unwrap_or(1) as usize);
+        return Some(match write_paths(&mut h, part, parts) {
+            Ok((devs, cases)) => json!({"devs": devs.iter().map(|(s, d)| json!({"sig": s, "detail": d})).collect::<Vec<_>>(), "errors": [], "cases": cases}),
+            Err(e) => json!({"devs": [], "errors": [e], "cases": 0}),
+        });
+    }
     if task.get("scenarios").is_some() || task.get("replay").map(|r| r["kind"].as_str() == Some("scenario")).unwrap_or(false) {
         let mut h = Harness::new(SrvOpts::default());
         let mut devs = Vec::new();
@@ -164,7 +295,27 @@ fn extra_worker(_tier: &str, task: &Value, _io: &mut WorkerIo) -> Option<Value> 
 }
 
 fn extra_parent(pool: &Pool, _tier: &str, report: &mut RunReport) -> Value {
-    let out = pool.map(vec![json!({"scenarios": true})], 0);
+    let parts = 16usize;
+    let mut tasks = vec![json!({"scenarios": true})];
+    for p in 0..parts {
+        tasks.push(json!({"write_paths": {"part": p, "parts": parts}}));
+    }
+    let out = pool.map(tasks, 0);
+    let mut write_cases = 0u64;
+    for o in out.iter().skip(1) {
+        match o {
+            Outcome::Done(v) => {
+                write_cases += v["cases"].as_u64().unwrap_or(0);
+                for e in v["errors"].as_array().cloned().unwrap_or_default() {
+                    report.machinery_errors.push(format!("{}", e));
+                }
+                for d in v["devs"].as_array().cloned().unwrap_or_default() {
+                    report.deviations.push(Deviation { property: "C18".into(), sig: d["sig"].as_str().unwrap_or("").to_string(), replay: json!({"kind": "scenario", "detail": d["detail"]}) });
+                }
+            }
+            Outcome::Died { status, .. } => report.machinery_errors.push(format!("write-path worker died: {}", status)),
+        }
+    }
     match &out[0] {
         Outcome::Done(v) => {
             for e in v["errors"].as_array().cloned().unwrap_or_default() {
@@ -173,7 +324,8 @@ fn extra_parent(pool: &Pool, _tier: &str, report: &mut RunReport) -> Value {
             for d in v["devs"].as_array().cloned().unwrap_or_default() {
                 report.deviations.push(Deviation { property: "C18".into(), sig: d["sig"].as_str().unwrap_or("").to_string(), replay: json!({"kind": "scenario", "detail": d["detail"]}) });
             }
-            json!({"read_paths_and_blocking_scenario": {"read_path_probes": 4 * 11, "blocking_scenario_steps": 6}})
+            json!({"read_paths_and_blocking_scenario": {"read_path_probes": 4 * 11, "blocking_scenario_steps": 6},
+                "write_paths": {"cases": write_cases, "product": "16 selected databases x 9 write commands x 6 paths (direct, MULTI/EXEC, queued SELECT, EVAL, EVALSHA, EVAL with pcall); all 16 databases seeded and read back"}})
         }
         Outcome::Died { status, .. } => {
             report.machinery_errors.push(format!("scenario worker died: {}", status));
